@@ -234,6 +234,7 @@ def u_Number(I):
     def st(I_, env, tag):
         outv = ctx.fresh('out_' + tag, 'str')
         env.local['out'] = outv
+        ctx.ghost['number_out'] = outv
         havoc_pos(I_, o, stream, 'n' + tag)
         ctx.assume(o.fields['sidx'] >= sidx0 + 1)
         ctx.assume(AllDec(outv))
@@ -254,15 +255,49 @@ def u_Number(I):
     out = run_target(I, PARSER, 'Number.__call__', [o, output], self_obj=p)
     took = any(e[0] == 'take' for e in ctx.effects)
     # a syntax error either before anything was consumed (no digit here) or for a digit run longer than int() converts (4300)
-    outv = None
-    if took and out.kind == 'raise':
-        from pyvc.engine import PathAbort
-        outv = ctx.ghost.get('last_int_arg')
-    too_long = (z3.Length(outv) > 4300) if outv is not None else z3.BoolVal(False)
+    # a syntax error either before anything was consumed (no digit here) or for a digit run longer than a count can be (MAX_DIGITS; int()
+    # itself converts up to 4300)
+    outv = ctx.ghost.get('last_int_arg')
+    if outv is None:
+        outv = ctx.ghost.get('number_out')
+    too_long = (z3.Length(outv) > MAX_DIGITS) if (outv is not None and took) else z3.BoolVal(False)
     check_outcome(I, out, raises={'RINGSyntaxError': z3.Or(z3.BoolVal(not took), too_long)}, returns=lambda r: [
         ('progress: a number consumes at least one character', o.fields['sidx'] >= sidx0 + 1),
-        ('position invariant', pos_ok(o, stream))])
+        ('position invariant', pos_ok(o, stream)),
+        ('the number handed to the tree readers has at most %d digits: the readers add such numbers up, mix them with 1.5 (float) and print them, and an int of more than 308 digits '
+         'cannot become a float (OverflowError), one of more than 4300 digits cannot be printed (ValueError)' % MAX_DIGITS,
+         (z3.Length(outv) <= MAX_DIGITS) if outv is not None else z3.BoolVal(False))])
     return {'inputs': {}}
+
+
+MAX_DIGITS = 18
+replay_String.model_free = replay_Digit.model_free = True
+
+
+def replay_Number(model, state, ob):
+    from pgradd.RINGParser.Reader import Read
+    from pgradd.Error import RINGError
+    R_ = 'rule r{ reactant r1{ C labeled c1 C labeled c2 single bond to c1 } %s }'
+    res = []
+    for big, ed in (('9' * 4300, 'modify number of radical (c1, %s) increase number of radical (c1)'), ('1' + '0' * 309, 'modify number of radical (c1, %s) modify bond (c1,c2,aromatic)')):
+        txt = R_ % (ed % big)
+        try:
+            Read(txt)
+            got = 'returned'
+        except RINGError:
+            got = 'RINGError'
+        except NotImplementedError:
+            got = 'NotImplementedError'
+        except Exception as e:   # noqa
+            got = 'raised ' + type(e).__name__
+        res.append((txt, got))
+    bad = [r for r in res if r[1].startswith('raised')]
+    txt, got = (bad or res)[0]
+    return {'failed': bool(bad), 'input': txt if len(txt) < 300 else txt[:120] + '...(%d digits)...' % (len(txt) - 200) + txt[-80:], 'observed': got, 'expected': 'a RING error',
+            'script': "from pgradd.RINGParser.Reader import Read\nRead(%r)\n" % txt}
+
+
+replay_Number.model_free = True
 
 
 def u_EOS(I):
@@ -590,6 +625,17 @@ def standin_read(tier, seed):
         texts.add('fragment a{ C labeled c1 ' + ' '.join('C labeled c%d single bond to c%d' % (i + 1, i) for i in range(1, n_)) + ' }')
         texts.add('fragment a{ C labeled c1 {' + ', '.join(['connected to >0 H'] * n_) + '} }')
         texts.add(R_ % ' '.join(['increase number of radical (c1) decrease number of radical (c1)'] * n_))
+    # numbers just under the conversion limits (accepted by int(), too long for str() once two of them are added; too large for float once
+    # mixed with the 1.5 of an aromatic bond) in every place where the readers do arithmetic on them or print them
+    for big in ('9' * 4300, '1' + '0' * 309, '9' * 400, '9' * 19):
+        texts.add(R_ % ('modify number of radical (c1, %s) increase number of radical (c1)' % big))
+        texts.add(R_ % ('modify number of radical (c1, %s) modify number of radical (c1, %s)' % (big, big)))
+        texts.add(R_ % ('modify number of radical (c1, %s) modify bond (c1,c2,aromatic)' % big))
+        texts.add(R_ % ('form aromatic bond (c1,c2) modify number of radical (c1, %s)' % big))
+        texts.add('rule r{reactant r1{c labeled c1 c labeled c2 aromatic bond to c1} modify number of radical (c1, %s) break aromatic bond (c1,c2)}' % big)
+        texts.add('fragment a{ C labeled c1 {connected to >%s H} }' % big)
+        texts.add('fragment a{ C labeled c1 {in ring of size %s} }' % big)
+        texts.add('fragment a{ C labeled c1 {has %s radical electrons} }' % big)
     for big in ('1' * 4400, '9' * 10000):
         texts.add(R_ % ('modify number of radical (c1, %s)' % big))
         texts.add('fragment a{ C labeled c1 {connected to >%s H} }' % big)
@@ -665,7 +711,7 @@ UNITS = [
     Unit('ParseState.take', (PARSER, 'ParseState.take'), u_take),
     Unit('String.__call__', (PARSER, 'String.__call__'), u_String, replay_String),
     Unit('Digit.__call__', (PARSER, 'Digit.__call__'), u_Digit, replay_Digit),
-    Unit('Number.__call__', (PARSER, 'Number.__call__'), u_Number, replay_Digit),
+    Unit('Number.__call__', (PARSER, 'Number.__call__'), u_Number, replay_Number),
     Unit('EOS.__call__', (PARSER, 'EOS.__call__'), u_EOS),
     Unit('Literal.__call__', (PARSER, 'Literal.__call__'), lit_unit('Literal')),
     Unit('Filler.__call__', (PARSER, 'Filler.__call__'), lit_unit('Filler')),
